@@ -426,10 +426,21 @@ def check_C03(tier, rng, jobs):
         scen += F.crash_scenarios(sc, inf["calls"], rng, torn_areas=("tmp",),
                                   every_byte_max=64 if q else 4096)
     agg = F.run_fs_batches("C03", RN.chunk(scen, 40), "crash", jobs=jobs)
-    for k in ("traces", "events", "calls", "states", "transitions", "programs", "sys_calls"):
-        agg[k] += ragg[k]
-    agg["cases"] |= ragg["cases"]
-    agg["divs"] += ragg["divs"]
+    # a data write that the kernel cuts short (and that the caller then completes) must still
+    # end in a content file that matches its address
+    shorts = []
+    for sc, inf in zip(refs, ragg["infos"]):
+        for k, c in enumerate(inf["calls"]):
+            if c["name"] in ("write", "pwrite64") and c["area"] == "tmp" and c["count"] > 1:
+                for n in sorted({1, c["count"] // 2, c["count"] - 1}):
+                    shorts.append(F.with_plan(sc, {"kind": "short", "at": k, "n": n}))
+    sagg = F.run_fs_batches("C03s", RN.chunk(shorts, 30), "conc", jobs=jobs)
+    for a in (ragg, sagg):
+        for k in ("traces", "events", "calls", "states", "transitions", "programs", "sys_calls"):
+            agg[k] += a[k]
+        agg["cases"] |= a["cases"]
+        agg["divs"] += a["divs"]
+    scen = scen + shorts
     kinds = {}
     for s_ in scen:
         kinds[s_["plan"]["kind"]] = kinds.get(s_["plan"]["kind"], 0) + 1
@@ -477,7 +488,124 @@ def check_C04(tier, rng, jobs):
             "fs": True}
 
 
-CHECKS = {"C04": check_C04, "C03": check_C03, "C12": check_C12, "C17": check_C17, "C20": check_C20, "C19": check_C19, "C06": check_C06, "C01": check_C01, "C16": check_C16, "C18": check_C18, "C02": check_C02, "C05": check_C05, "C08": check_C08, "C09": check_C09, "C10": check_C10,
+def check_C13(tier, rng, jobs):
+    from . import fsplans as F
+    q = tier == QUICK
+    refs = F.fault_op_scenarios(rng, tier)
+    ragg = F.run_fs_batches("C13ref", RN.chunk(refs, 3), "conc", resolvable=False, jobs=jobs)
+    scen_res, scen_nores = [], []
+    for sc, inf in zip(refs, ragg["infos"]):
+        ss = F.fault_scenarios(sc, inf["calls"], rng, pairs=not q)
+        (scen_res if sc.get("resolvable", True) else scen_nores).extend(ss)
+    agg = F.run_fs_batches("C13", RN.chunk(scen_res, 50), "fault", resolvable=True, jobs=jobs)
+    agg2 = F.run_fs_batches("C13n", RN.chunk(scen_nores, 50), "fault", resolvable=False, jobs=jobs)
+    for a in (ragg, agg2):
+        for k in ("traces", "events", "calls", "states", "transitions", "programs", "sys_calls"):
+            agg[k] += a[k]
+        agg["cases"] |= a["cases"]
+        agg["divs"] += a["divs"]
+    kinds = {}
+    for s_ in scen_res + scen_nores:
+        key = "%s:%s" % (s_["plan"]["kind"], s_["plan"].get("errno", s_["plan"].get("then")))
+        kinds[key] = kinds.get(key, 0) + 1
+    return {"mc": _fs_mc("C13", tier), "agg": agg,
+            "samples": [scen_res[0]["plan"], scen_res[len(scen_res) // 2]["plan"], refs[0]["variant"]],
+            "rule": "for each operation (keyed / by-address / streamed memory-mapped writes, overwrite, read by key and "
+                    "address, metadata, checked copy and hard link, remove, remove_hash, list) on each of three flavours: "
+                    "a reference run under the tracer, then one run per (visible system call i, applicable errno in "
+                    "{EIO, ENOSPC, EACCES, EMFILE}) and per short write followed by failure (thorough: pairs of faults); "
+                    "TLC checks on every projection that only complete files exist, and at the end that the call "
+                    "returned an error or a truthful success, other entries are untouched and the faulted key is "
+                    "unchanged or fully written; the same call is then repeated without fault and must succeed",
+            "coverage_extra": {"fault_runs": kinds, "system_calls_stepped": agg["sys_calls"],
+                               "exhaustive_part_impl": "every visible system call of every listed operation x every applicable errno, one at a time"},
+            "level": "model_checking", "fs": True}
+
+
+def check_C07(tier, rng, jobs):
+    from . import fsplans as F
+    q = tier == QUICK
+    refs, _ = F.conc_scenarios(rng, tier)
+    # reference runs (sequential A then B) give the number of visible calls of each process
+    ragg = F.run_fs_batches("C07ref", RN.chunk(refs, 6), "conc", resolvable=False, jobs=jobs)
+    scen = []
+    for sc, inf in zip(refs, ragg["infos"]):
+        na = sum(1 for c in inf["calls"] if c["p"] == 0)
+        nb = sum(1 for c in inf["calls"] if c["p"] == 1)
+        scen += F.schedules_for(sc, na, nb, rng, per_i=2 if q else 5, max_i=8 if q else None)
+    if not q:
+        # triples with random schedules
+        for _ in range(400):
+            a, b = rng.sample(refs, 2)
+            sc = dict(a)
+            sc["procs"] = a["procs"] + [b["procs"][0]]
+            sc["plan"] = {"kind": "schedule", "order": [rng.randrange(3) for _ in range(rng.randrange(0, 60))]}
+            scen.append(sc)
+    agg = F.run_fs_batches("C07", RN.chunk(scen, 60), "conc", resolvable=False, jobs=jobs)
+    for k in ("traces", "events", "calls", "states", "transitions", "programs", "sys_calls"):
+        agg[k] += ragg[k]
+    agg["cases"] |= ragg["cases"]
+    agg["divs"] += ragg["divs"]
+    agg["histories"] = agg.get("histories", 0) + ragg.get("histories", 0)
+    return {"mc": _fs_mc("C07", tier), "agg": agg,
+            "samples": [scen[1]["plan"], scen[1]["variant"], scen[-1]["plan"]],
+            "rule": "pairs (thorough: also triples) of operations from {write same key, write other key with identical "
+                    "content, streamed write, write_hash, read, read_hash, metadata, remove, remove_hash, exists, list} on "
+                    "cold and warm caches, each as its own process of a random flavour, interleaved at the granularity "
+                    "of visible system calls: process A runs i calls, B runs j calls, then they alternate (all i, "
+                    "sampled j); after every call TLC checks ContentAtomic and NoPartialRecord and the step rules "
+                    "(append-only buckets, complete content only); for every run TLC searches a serial order of the "
+                    "operations that reproduces every result and the final projection (SerialAPI.tla)",
+            "coverage_extra": {"schedules": len(scen), "histories_explained": agg.get("histories", 0),
+                               "system_calls_stepped": agg["sys_calls"]},
+            "fs": True}
+
+
+def check_C15(tier, rng, jobs):
+    from . import fsplans as F
+    q = tier == QUICK
+    scen = F.confinement_scenarios(rng, tier)
+    agg = F.run_fs_batches("C15", RN.chunk(scen, 12), "conc", resolvable=False, jobs=jobs)
+    # confusable keys are distinct, independent entries (API level)
+    progs = []
+    pairs = [("key", "Key"), ("caf\u00e9", "cafe\u0301"), ("a/b", "a\\b"), ("../x", "x"), ("nul\u0000", "nul"),
+             ("", " "), (".", ".."), ("k", "k\n"), ("tab\t", "tab"), ("\u00e9", "e\u0301")]
+    for i in range(4 if q else 40):
+        prog = {"keys": {}, "blobs": {}, "steps": []}
+        ks, ds = [], []
+        for (a, b) in rng.sample(pairs, 4):
+            for s_ in (a, b):
+                ks.append(G.add_key(prog, s_))
+                ds.append(G._mk_data(prog, rng, rng.randrange(1, 40)))
+        order = list(range(len(ks)))
+        rng.shuffle(order)
+        for j in order:
+            prog["steps"].append({"op": "write", "lane": rng.choice(ALL_LANES), "key": ks[j], "data": ds[j], "algo": "sha256"})
+        G.observe_all(prog, rng, ALL_LANES, ks, [], read=True)
+        for j in rng.sample(order, 3):
+            prog["steps"].append({"op": "remove", "lane": rng.choice(ALL_LANES), "key": ks[j]})
+            G.observe_all(prog, rng, ALL_LANES, ks, [], read=True)
+        progs.append(prog)
+    agg2 = RN.run_batches("C15a", RN.chunk(progs, 2), jobs=jobs)
+    for k in ("traces", "events", "calls", "states", "transitions", "programs"):
+        agg[k] += agg2[k]
+    agg["cases"] |= agg2["cases"]
+    for d in agg2["divs"]:
+        d["props"] = sorted(set(d.get("props") or []) | {"C15"})
+    agg["divs"] += agg2["divs"]
+    return {"mc": [], "agg": agg, "samples": [scen[0]["variant"], scen[-1]["variant"]],
+            "rule": "every operation of the API on keys from a hostile / confusable set (path-like, '..', NUL, control, "
+                    "case and NFC/NFD pairs, 4 kB) and random Unicode, each as a traced process: every path-taking or "
+                    "descriptor-writing system call anywhere is classified; TLC requires that no mutating call lies "
+                    "outside the cache root and the given destination, that read-only operations issue no mutating call "
+                    "and change nothing, and (TraceLayout) that every path touched under index-v5 / content-v2 is a "
+                    "prefix of the bucket path of SHA-1(key) / the content path of the digest, both from hashlib; "
+                    "confusable keys are written, read and removed as independent entries (TraceAPI)",
+            "coverage_extra": {"system_calls_stepped": agg["sys_calls"], "touched_paths_checked": agg.get("touches", 0)},
+            "fs": True, "needs_mc_from": "C05"}
+
+
+CHECKS = {"C15": check_C15, "C07": check_C07, "C13": check_C13, "C04": check_C04, "C03": check_C03, "C12": check_C12, "C17": check_C17, "C20": check_C20, "C19": check_C19, "C06": check_C06, "C01": check_C01, "C16": check_C16, "C18": check_C18, "C02": check_C02, "C05": check_C05, "C08": check_C08, "C09": check_C09, "C10": check_C10,
           "C11": check_C11, "C14": check_C14}
 
 
@@ -562,8 +690,14 @@ def main(pid, tier, replay, jobs):
         if replay:
             with open(replay) as f:
                 programs = json.load(f)
-            agg = RN.run_batches(pid + "_replay", [programs], jobs=1)
-            r = {"mc": [], "agg": agg, "samples": [programs[0]["steps"][:5]], "rule": "replay of " + replay}
+            if isinstance(programs, dict) and "scenarios" in programs:
+                from . import fsplans as F
+                agg = F.run_fs_batches(pid + "_replay", [programs["scenarios"]], programs["mode"],
+                                       resolvable=programs.get("resolvable", True), jobs=1)
+                r = {"mc": [], "agg": agg, "samples": [programs["scenarios"][0]["plan"]], "rule": "replay of " + replay}
+            else:
+                agg = RN.run_batches(pid + "_replay", [programs], jobs=1)
+                r = {"mc": [], "agg": agg, "samples": [programs[0]["steps"][:5]], "rule": "replay of " + replay}
             return finish(pid, tier, seed, t0, r)
         r = CHECKS[pid](tier, rng, jobs)
         rc = finish(pid, tier, seed, t0, r)
